@@ -15,8 +15,48 @@ From ZI Require Export Tie.RegCommon.
 From ZI Require Import Spec.EntryPoints.
 
 Definition case_t := hist_case.
-Definition model_out := hist_model_out.
-Definition check_model := hist_check_model.
+
+(* the separator of the subscribers answer (reg_common.MARK); the generated case files refer to this
+   constant so that the unary number is built once per file *)
+Definition MARK : nat := 999999.
+
+(* The model run = Model/RegSys.run, with the separator of the subscribers answer taken from the
+   shared constant (the literal in RegSys.step is rebuilt, a million constructors, at every
+   QSubscribers step: 50 ms each).  [run8_eq] shows it is the same function. *)
+Definition step8 (W : world) (s : sys) (o : rop) : sys * list nat :=
+  match o with
+  | QSubscribers r os p =>
+      let '(s', a) := with_lookup W s r (fun _ _ us c => subscribers us call c os p) in
+      (s', fst a ++ [MARK] ++ map vid (snd a))
+  | _ => step W call s o
+  end.
+
+Fixpoint run8 (W : world) (s : sys) (ops : list rop) : list (list nat) :=
+  match ops with
+  | [] => []
+  | o :: ops' => let '(s', a) := step8 W s o in a :: run8 W s' ops'
+  end.
+
+Lemma step8_eq W s o : step8 W s o = step W call s o.
+Proof. destruct o; reflexivity. Qed.
+
+Lemma run8_eq W ops : forall s, run8 W s ops = run W call s ops.
+Proof.
+  induction ops as [|o ops IH]; intros s; cbn [run8 run]; [reflexivity|].
+  rewrite step8_eq. destruct (step W call s o) as [s' a]. rewrite IH. reflexivity.
+Qed.
+
+Definition model_out (c : case_t) : list (list nat) :=
+  let '(g, ifs, ops, _) := c in run8 (mk_world g ifs) [] ops.
+
+Lemma model_out_eq c : model_out c = hist_model_out c.
+Proof. destruct c as [[[g ifs] ops] obs]. apply run8_eq. Qed.
+
+Definition check_model (c : case_t) : bool :=
+  let '(_, _, _, obs) := c in llnat_eqb (model_out c) obs.
+
+Lemma check_model_eq c : check_model c = hist_check_model c.
+Proof. destruct c as [[[g ifs] ops] obs]. unfold check_model, hist_check_model. rewrite model_out_eq. reflexivity. Qed.
 
 Definition is_mutation (o : rop) : bool :=
   match o with
@@ -72,6 +112,15 @@ Fixpoint unflat (l : list nat) : list (nat * nat) :=
 Definition found (a : list nat) : bool := match a with [1; _] => true | _ => false end.
 Definition plain_answer (a : list nat) : bool := match a with [0] | [1; _] => true | _ => false end.
 
+(* subscribers answer = results ++ [MARK] ++ called subscriptions.  Results and value ids are
+   below 10000; the separator is recognised by size (comparing two unary 999999 costs a million
+   steps).  No separator: everything is "results" and [called] = [0; 0] never matches. *)
+Fixpoint split_at_mark (a : list nat) : list nat * list nat :=
+  match a with
+  | [] => ([], [0; 0])
+  | x :: a' => if Nat.leb 10000 x then ([], a') else let '(r, c) := split_at_mark a' in (x :: r, c)
+  end.
+
 Definition same_lookup r req p n r' req' p' n' : bool :=
   Nat.eqb r r' && lnat_eqb req req' && Nat.eqb p p' && name_arg_eqb n n'.
 
@@ -105,10 +154,12 @@ Definition compat (x y : claim) : bool :=
       if Nat.eqb r r' && lnat_eqb req req' && onat_eqb p p' then lnat_eqb a a' else true
   | CSubscribers r os p a, CSubs r' req' p' subs =>
       if Nat.eqb r r' && lnat_eqb (map o_provides os) req' && onat_eqb p p' then
-        lnat_eqb a (match p with
-                    | None => []
-                    | Some _ => call_all call (map (fun v => mkV v 0) subs) (map o_id os)
-                    end ++ [999999] ++ subs)
+        let '(results, called) := split_at_mark a in
+        lnat_eqb results (match p with
+                          | None => []
+                          | Some _ => call_all call (map (fun v => mkV v 0) subs) (map o_id os)
+                          end)
+        && lnat_eqb called subs
       else true
   | _, _ => true
   end.
